@@ -13,7 +13,7 @@ costs diversity, never soundness.
   c_program(rng, ...)               -> CProgram(sources...)   C17: C sources mixing -g / non -g TUs, aliases, weak, visibility
   build_c(prog, workdir, stem, ...) -> [(kind, path)]
 """
-import os, re, shutil
+import os, re
 import vf
 
 SECTION_OF = {"1": ".text", "2": ".data", "3": "__ksymtab", "4": ".rodata"}
@@ -52,8 +52,6 @@ def normalize(row):
         return None
     if r["version"] and (r["bind"] == "LOCAL" or r["vis"] in ("HIDDEN", "INTERNAL") or r["shndx"] in ("ABS",)):
         r["version"] = ""
-    if r["type"] == "IFUNC" and r["bind"] == "LOCAL" and False:
-        return None
     return r
 
 
